@@ -25,7 +25,7 @@ class Contract:
                  props=(), self_type=None, fields=None, is_property=False, on_call=None, let=None,
                  pure=True, kind='code', note='', allow_assert_fail=False, cases=None, hints=None,
                  yields=None, trusted=False, statement=None, varargs=None, kwargs=None, defaults=None,
-                 lemmas=None, timeout=None, negative_controls=None, variant=None, result_from=None, ghost_exit=None, source=None, kinds=None):
+                 lemmas=None, timeout=None, negative_controls=None, variant=None, result_from=None, ghost_exit=None, source=None, kinds=None, defines=None, cuts=None):
         self.file, self.qual = file, qual
         self.params = dict(params or {})        # name -> type string (ordered)
         self.requires = _clauses(requires)
@@ -57,6 +57,8 @@ class Contract:
         self.lemmas = list(lemmas or [])
         self.timeout = timeout
         self.variant = variant
+        self.cuts = list(cuts or [])              # (statement text prefix, label, expr): stepping stones proved right after that statement, then assumed
+        self.defines = _clauses(defines)          # definitional clauses about uninterpreted spec symbols: assumed at call sites, no obligation (listed as A-DEF)
         self.kinds = dict(kinds or {})            # parameter name -> Python type name of an opaque (elem) parameter, for isinstance
         self.ghost_exit = dict(ghost_exit or {})   # 'self.field' -> expr: ghost fields assigned by the contract at normal exit
         self.source = source                       # qualname (with optional @decorator) in the file, when it differs from qual
